@@ -3,7 +3,8 @@
 
 For each of CumSumTransform, CumSumExpTransform, SoftPlusTransform, CumSumSoftPlusTransform, LogTransform the three
 methods `_call(self, x)`, `_inverse(self, y)`, `log_abs_det_jacobian(self, x, y)` must consist of local
-assignments `name = <expr>` followed by one `return <expr>` over this expression language (anything else raises
+assignments `name = <expr>` (read by substitution) followed by one `return <expr>` over this expression language;
+calls of module-level helper functions of the same file are inlined (anything else raises
 TranslateError: fail-closed):
 
     x, y, locals                      vectors (the last dimension of the tensor)
@@ -51,8 +52,8 @@ def _is_minus1(n):
     return ast.unparse(n) == "-1"
 
 
-def _slice_of(n):
-    """a[..., lo:hi] -> (unparse(a), lo, hi) with lo/hi source text ('' when absent)"""
+def _slice_kind(n):
+    """a[..., :1] -> (a, 'head'); a[..., 1:] -> (a, 'tail'); a[..., :-1] -> (a, 'init')"""
     if not (isinstance(n, ast.Subscript) and isinstance(n.slice, ast.Tuple) and len(n.slice.elts) == 2):
         return None
     e0, e1 = n.slice.elts
@@ -60,35 +61,64 @@ def _slice_of(n):
         return None
     lo = ast.unparse(e1.lower) if e1.lower is not None else ""
     hi = ast.unparse(e1.upper) if e1.upper is not None else ""
-    return n.value, lo, hi
+    kind = {("", "1"): "head", ("1", ""): "tail", ("", "-1"): "init"}.get((lo, hi))
+    return (n.value, kind) if kind else None
 
 
-def _expr(n, env):
+# symbolic values: (coq term, VEC | SCAL)  or  (coq term of the vector a, 'head' | 'tail' | 'init' | 'adjdiff')
+# -- the last four stand for a[..., :1], a[..., 1:], a[..., :-1] and a[..., 1:] - a[..., :-1]; they are only
+#    meaningful inside the torch.cat((head, adjdiff), -1) pattern
+def _expr(n, env, helpers, depth=0):
     """-> (coq term, type)"""
+    def ev(m):
+        return _expr(m, env, helpers, depth)
     if isinstance(n, ast.Name):
         if n.id in env:
             return env[n.id]
         _fail(n, "unknown name")
+    sk = _slice_kind(n)
+    if sk:
+        t, ty = ev(sk[0])
+        if ty == VEC:
+            return t, sk[1]
+        _fail(n, "slice of something that is not a vector")
     if isinstance(n, ast.UnaryOp) and isinstance(n.op, ast.USub):
-        t, ty = _expr(n.operand, env)
-        return (f"(map (opp N) {t})", VEC) if ty == VEC else (f"(opp N {t})", SCAL)
+        t, ty = ev(n.operand)
+        if ty == VEC:
+            return f"(map (opp N) {t})", VEC
+        if ty == SCAL:
+            return f"(opp N {t})", SCAL
+        _fail(n, "negation of a slice")
     if isinstance(n, ast.BinOp) and isinstance(n.op, (ast.Add, ast.Sub)):
         op = "add" if isinstance(n.op, ast.Add) else "sub"
         if _is_num(n.right):
-            t, ty = _expr(n.left, env)
+            t, ty = ev(n.left)
             c = _q(n.right.value)
-            return (f"(map (fun v => {op} N v {c}) {t})", VEC) if ty == VEC else (f"({op} N {t} {c})", SCAL)
-        if _is_num(n.left) and op == "add":
-            t, ty = _expr(n.right, env)
+            if ty == VEC:
+                return f"(map (fun v => {op} N v {c}) {t})", VEC
+            if ty == SCAL:
+                return f"({op} N {t} {c})", SCAL
+        elif _is_num(n.left) and op == "add":
+            t, ty = ev(n.right)
             c = _q(n.left.value)
-            return (f"(map (fun v => add N {c} v) {t})", VEC) if ty == VEC else (f"(add N {c} {t})", SCAL)
+            if ty == VEC:
+                return f"(map (fun v => add N {c} v) {t})", VEC
+            if ty == SCAL:
+                return f"(add N {c} {t})", SCAL
+        elif op == "sub":
+            a, ta = ev(n.left)
+            b, tb = ev(n.right)
+            if ta == "tail" and tb == "init" and a == b:
+                return a, "adjdiff"
         _fail(n, "sum / difference of two tensors outside the recognised patterns")
     if isinstance(n, ast.Call):
         f = n.func
         fn = ast.unparse(f)
+        if isinstance(f, ast.Name) and f.id in helpers:
+            return _call_helper(n, env, helpers, depth)
         # method calls on an expression
         if isinstance(f, ast.Attribute) and fn not in ("torch.exp", "torch.log", "torch.expm1", "torch.cat", "torch.zeros"):
-            recv, ty = _expr(f.value, env)
+            recv, ty = ev(f.value)
             if f.attr == "cumsum" and len(n.args) == 1 and _is_minus1(n.args[0]) and not n.keywords and ty == VEC:
                 return f"(cumsum N {recv})", VEC
             if f.attr == "sum" and len(n.args) == 1 and _is_minus1(n.args[0]) and not n.keywords and ty == VEC:
@@ -97,23 +127,22 @@ def _expr(n, env):
                 return f"(map ({'nexp' if f.attr == 'exp' else 'nln'} N) {recv})", VEC
             _fail(n, "unrecognised method")
         if fn in ("torch.exp", "torch.log", "torch.expm1", "softplus") and len(n.args) == 1 and not n.keywords:
-            t, ty = _expr(n.args[0], env)
+            t, ty = ev(n.args[0])
             if ty != VEC:
-                _fail(n, "element-wise function of a scalar")
+                _fail(n, "element-wise function of something that is not a vector")
             g = {"torch.exp": "(nexp N)", "torch.log": "(nln N)",
                  "torch.expm1": "(fun v => sub N (nexp N v) (one N))", "softplus": "(softplus N)"}[fn]
             return f"(map {g} {t})", VEC
-        if fn == "torch.cat" and len(n.args) == 2 and _is_minus1(n.args[1]) and not n.keywords and \
-                isinstance(n.args[0], ast.Tuple) and len(n.args[0].elts) == 2:
-            head, rest = n.args[0].elts
-            h = _slice_of(head)
-            if h and isinstance(rest, ast.BinOp) and isinstance(rest.op, ast.Sub):
-                a, b = _slice_of(rest.left), _slice_of(rest.right)
-                if a and b and isinstance(h[0], ast.Name) and h[1:] == ("", "1") and a[1:] == ("1", "") and \
-                        b[1:] == ("", "-1") and ast.unparse(a[0]) == ast.unparse(b[0]) == h[0].id:
-                    t, ty = _expr(h[0], env)
-                    if ty == VEC:
-                        return f"(first_then_diffs {t})", VEC
+        if fn == "torch.cat" and len(n.args) == 2 and _is_minus1(n.args[1]) and not n.keywords:
+            parts = n.args[0]
+            if isinstance(parts, ast.Name) and parts.id in env and isinstance(env[parts.id], list):
+                vals = env[parts.id]
+            elif isinstance(parts, ast.Tuple):
+                vals = [ev(x) for x in parts.elts]
+            else:
+                vals = None
+            if vals and len(vals) == 2 and vals[0][1] == "head" and vals[1][1] == "adjdiff" and vals[0][0] == vals[1][0]:
+                return f"(first_then_diffs {vals[0][0]})", VEC
             _fail(n, "torch.cat outside the first-element / successive-differences pattern")
         if fn == "torch.zeros" and n.args and ast.unparse(n.args[0]) in ("x.shape[:-1]", "y.shape[:-1]") and \
                 len(n.args) == 1 and all(k.arg in ("dtype", "device") for k in n.keywords):
@@ -121,7 +150,41 @@ def _expr(n, env):
     _fail(n, "unrecognised expression")
 
 
-def _method(cls, name, args, tag):
+def _body(fn, env, helpers, depth):
+    """local assignments `name = <expr>` (bound by substitution) followed by one `return <expr>`"""
+    body = [s for s in fn.body if not (isinstance(s, ast.Expr) and isinstance(s.value, ast.Constant))]
+    if not body or not isinstance(body[-1], ast.Return) or body[-1].value is None:
+        _fail(fn, "the function does not end with `return <expr>`")
+    env = dict(env)
+    for s in body[:-1]:
+        if isinstance(s, ast.AnnAssign) and isinstance(s.target, ast.Name) and s.value is not None:
+            nm, val = s.target.id, s.value
+        elif isinstance(s, ast.Assign) and len(s.targets) == 1 and isinstance(s.targets[0], ast.Name):
+            nm, val = s.targets[0].id, s.value
+        else:
+            _fail(s, "only `name = <expr>` may precede the return")
+        if nm in env:
+            _fail(s, "a name is bound twice")
+        if isinstance(val, ast.Tuple):           # a tuple of pieces, for torch.cat(<name>, -1)
+            env[nm] = [_expr(x, env, helpers, depth) for x in val.elts]
+        else:
+            env[nm] = _expr(val, env, helpers, depth)
+    return _expr(body[-1].value, env, helpers, depth)
+
+
+def _call_helper(call, env, helpers, depth):
+    fn = helpers[call.func.id]
+    if depth > 3:
+        _fail(call, "helper calls nested too deeply")
+    a = fn.args
+    if a.vararg or a.kwarg or a.kwonlyargs or a.posonlyargs or a.defaults or fn.decorator_list or call.keywords \
+            or len(call.args) != len(a.args):
+        _fail(call, "unsupported helper signature / call")
+    bound = {p.arg: _expr(x, env, helpers, depth) for p, x in zip(a.args, call.args)}
+    return _body(fn, bound, helpers, depth + 1)
+
+
+def _method(cls, name, args, tag, helpers):
     fns = [m for m in cls.body if isinstance(m, ast.FunctionDef) and m.name == name]
     if len(fns) != 1:
         raise TranslateError(f"{cls.name}.{name} not found")
@@ -129,22 +192,11 @@ def _method(cls, name, args, tag):
     if [a.arg for a in fn.args.args] != args or fn.args.vararg or fn.args.kwarg or fn.args.kwonlyargs or fn.decorator_list:
         _fail(fn, "unexpected signature")
     env = {a: (a, VEC) for a in args[1:]}
-    body = [s for s in fn.body if not (isinstance(s, ast.Expr) and isinstance(s.value, ast.Constant))]
-    if not body or not isinstance(body[-1], ast.Return) or body[-1].value is None:
-        _fail(fn, "the method does not end with `return <expr>`")
-    lets = []
-    for s in body[:-1]:
-        if not (isinstance(s, ast.Assign) and len(s.targets) == 1 and isinstance(s.targets[0], ast.Name)):
-            _fail(s, "only `name = <expr>` may precede the return")
-        nm = s.targets[0].id
-        if nm in args:
-            _fail(s, "an argument is reassigned")
-        t, ty = _expr(s.value, env)
-        lets.append(f"let {nm}_ := {t} in ")
-        env[nm] = (f"{nm}_", ty)
-    t, ty = _expr(body[-1].value, env)
+    t, ty = _body(fn, env, helpers, 0)
+    if ty not in (VEC, SCAL):
+        _fail(fn, "the method returns a slice")
     params = " ".join(args[1:])
-    return f"Definition g_{cls.name}_{tag} ({params} : list T) : {ty} :=\n  {''.join(lets)}{t}."
+    return f"Definition g_{cls.name}_{tag} ({params} : list T) : {ty} :=\n  {t}."
 
 
 def translate(path=None):
@@ -158,6 +210,12 @@ def translate(path=None):
                 nm in ("softplus", "torch") for nm in ([s.name] if isinstance(s, ast.FunctionDef) else
                                                        [ast.unparse(t) for t in s.targets])):
             _fail(s, "softplus / torch rebound at module level")
+    helpers = {}
+    for n in tree.body:
+        if isinstance(n, ast.FunctionDef):
+            if n.name in helpers:
+                _fail(n, "function defined twice")
+            helpers[n.name] = n
     out = ["(* GENERATED by harness/translate/t10_transforms.py from torchtree/distributions/transforms.py — do not edit *)",
            "From Coq Require Import QArith List.", "Import ListNotations.", "From TT Require Import Num M_transform.", "",
            "Section Gen.", "Context {T : Type} (N : Num T).", "",
@@ -176,7 +234,7 @@ def translate(path=None):
         if extra & {"__call__", "inv", "_inv_call", "forward"}:
             raise TranslateError(f"class {cn} overrides {sorted(extra)}")
         for name, args, tag in METHODS:
-            out.append(_method(cls[0], name, args, tag))
+            out.append(_method(cls[0], name, args, tag, helpers))
         out.append("")
     out.append("End Gen.")
     return "\n".join(out) + "\n"
